@@ -210,7 +210,7 @@ def run(ctx):
                         else:
                             bad = ("shape-after-iand",)
                     elif pickle.dumps(ts["C"], 2) != pickle.dumps(ts["Py"], 2):
-                        bad = ("pickle" if not any(cc[0] == "iand" for cc in calls[:i + 1]) else "pickle-after-iand",)
+                        bad = (("pickle" if not any(cc[0] == "iand" for cc in calls[:i + 1]) else "pickle-after-iand") + (":fs" if fn == "fs" else ""),)
                 if bad:
                     try:
                         sizes_now = "C holds %d, Python holds %d entries: %r" % (len(ts["C"]), len(ts["Py"]), [repr(x)[:30] for x in list(ts["C"])[:4]])
